@@ -66,7 +66,15 @@ s = s[:i] + "## 8. Seeded changes and which checks catch them\n\n" + \
     "(C01 0-d time; C03 heterogeneous parameters; C06 reordered masks and parameter batches; C07 uniform pre-loop draw and NaN-test vocabulary; C08 space-time " \
     "columns and concrete grid tables; C09 constructed generators; C11/C13 per-unknown component selections; C12 stale-shape update and hyper-input order; C15 mixed-shape observed " \
     "parameters and grid per key; C16 the loop's trigger call; C17 active set and sizes per family; C18 merged conditional returns; C20 first-draw end index and weight " \
-    "representation; the interpreter's comprehension scope), after which all are caught.\n\n" + \
+    "representation; the interpreter's comprehension scope), after which all are caught. " \
+    "Round 3 (`Cxx_r3mK`; the seeders were told about both earlier rounds and asked for untouched files, interactions of two features and " \
+    "shape-preserving semantic slips): 21 of 60 not reported by the check of their own property at first, 9 of them by no check " \
+    "(partial derivative-key specifications, a shared mutable default argument, an omitted weight field, a user function called off the grid, " \
+    "a factory turning `slice_solution=0` into 'all outputs', a grid scaled by the refinement start count, per-family constructor state, " \
+    "stale parameters handed to the refinement, an in-place `|=` on the batch dictionary); all led to new rules or to corrections of the " \
+    "interpreter's Python semantics (default values evaluated once, in-place augmented assignment). The changes that are still not reported " \
+    "by the check of their own property sit in code that another property states (a network-wrapper change seeded for the operators, a system-loss " \
+    "constructor change seeded for the boundary term, ...) and are reported by that property's check.\n\n" + \
     tab + "\n\nOne candidate was dropped: `C16_m3` (`i <= start_iter` -> `i < start_iter` in `rar_step_false`). It was produced against " \
     "the tree before repair fc78006; on the repaired tree the period counter equals `update_every - 1` at `start_iter`, a non-step at " \
     "`i == start_iter` can then only be caused by a full store, and the change no longer alters any observable count (its demo passes " \
